@@ -26,6 +26,39 @@ def plan_c17(K, ctx):
         return c["t"]["k"] != "Word" and len(set(ops)) > 1
 
     K.pipeline(ctx, "ascii", "c17", "MC_C17", cfg, "J_C17", nontrivial, shards=4 if ctx.tier == "thorough" else 1)
+    # seeded random start terms (depth <= 6) under random histories of 3..8 mutator calls, replayed through M2 step by step
+    rnd = random.Random(ctx.seed)
+    fixed = ["", "abc", "x-y", "7", "+7", "007", "+", "-1", "-0", "1.5", " 7", "7 ", "7_0", "٣", "18446744073709551615", "18446744073709551616", "²", "4294967296"]
+    pool_terms, pool_names = [], []
+
+    def rname():
+        k = rnd.random()
+        if k < 0.3:
+            return rnd.choice(fixed)
+        if k < 0.55 and pool_names:
+            return rnd.choice(pool_names)
+        if k < 0.8:
+            return "".join(rnd.choice("0123456789") for _ in range(rnd.randint(1, 24)))
+        return rnd.choice(["+", "0", "00", " ", "-"]) + "".join(rnd.choice("0123456789") for _ in range(rnd.randint(1, 21)))
+
+    def muts(r, f):
+        t = term_of_value(r["v"])
+        pool_terms.append(t)
+        pool_names.extend(list(names_in(t))[:3])
+        ops = []
+        for _ in range(rnd.randint(3, 8)):
+            if rnd.random() < 0.5:
+                ops.append({"op": "set_name", "n": rname()})
+            else:
+                ops.append({"op": "push", "cs": [rnd.choice(pool_terms[-50:]) for _ in range(rnd.randint(0, 3))]})
+        out = [{"op": "mut", "t": t, "ops": ops, "rand": True}]
+        # the same history from one of its sub-terms (atoms and inner compounds are reached this way)
+        kids = t.get("s") or t.get("q") or [x for x in (t.get("a"), t.get("b")) if x]
+        if kids:
+            out.append({"op": "mut", "t": rnd.choice(kids), "ops": ops, "rand": True})
+        return out
+    random_stage(K, ctx, "c17rand", muts, "J_C17", count=2500 if ctx.tier == "quick" else 80000, fmts=["ascii"], nontrivial=nontrivial,
+                 shards=2 if ctx.tier == "quick" else 6, split=False)
     return {
         "note": f"M2 (Mutators.tla): all behaviours of length {depth} over {{18 name arguments, 6 component lists}} from one start term per "
                 "constructor and shape, explored exhaustively by TLC (invariants KindStable, ImageIndexOK, NameReadBack; action properties "
@@ -52,6 +85,9 @@ def plan_c14(K, ctx):
         return lambda: K.pipeline(ctx, fmt, "c14", "MC_C14", cfg, "J_C14", nontrivial, transform=tr, workers=4,
                                   shards=4 if ctx.tier == "thorough" else 1)
     K.parallel([one(f) for f in K.FORMATS])
+    # seeded random terms (depth <= 6, up to five components, images with any placeholder position)
+    random_stage(K, ctx, "c14rand", lambda r, f: [{"op": "accessors", "t": term_of_value(r["v"]), "rand": True}], "J_C14",
+                 count=3000 if ctx.tier == "quick" else 100000, fmts=["ascii"], nontrivial=nontrivial, shards=2 if ctx.tier == "quick" else 6, split=False)
     # unbounded n: Apalache discharges the inductive invariant of the integer abstraction of M5 (spec/apalache/IterInd.tla)
     steps = [("init", ["--init=Init", "--inv=IndInv", "--length=0"]), ("step", ["--init=IndInit", "--inv=IndInv", "--length=1"]),
              ("safety", ["--init=IndInit", "--inv=Safety", "--length=0"])]
@@ -152,6 +188,105 @@ def exotic_stage(K, ctx, tag, want_op, judge):
     K.parallel([one(f) for f in K.FORMATS])
 
 
+def names_in(x):
+    if isinstance(x, dict):
+        if "n" in x and x.get("k") != "Interval" and x.get("k") != "Fixed":
+            yield x["n"]
+        for v in x.values():
+            yield from names_in(v)
+    elif isinstance(x, list):
+        for v in x:
+            yield from names_in(v)
+
+
+def spellable(K, ctx, v):
+    """can the TLA+ side classify every character of every name (is it in the dumped working alphabet)?"""
+    if not hasattr(ctx, "_alphabet"):
+        ctx._alphabet = set(json.load(open(os.path.join(ctx.rundir, "vocab.json"), encoding="utf-8"))["alphabet"])
+    return all(ch in ctx._alphabet for n in names_in(v) for ch in n)
+
+
+def random_stage(K, ctx, tag, build, judge, count=None, fmts=None, nontrivial=None, shards=2, env_extra=None, split=True, witnesses=()):
+    """seeded random well-formed values from `nv drive values` (rich names, random floats / stamps / intervals, depth <= 6):
+    a different part of the value space for every VERIF_SEED.  `build(rec)` turns one generated record into commands.
+    The judges decide the property on the real observations; model predictions are not asked for here (`exotic`)."""
+    count = count or (3000 if ctx.tier == "quick" else 150000)
+    allv = os.path.join(ctx.rundir, f"{tag}_values.ndjson")
+    p = K.sh([K.NV, "drive", "values", str(ctx.seed), str(count), allv], 900)
+    if p.returncode != 0:
+        raise K.ToolError("nv drive values failed: " + (p.stdout or ""))
+    fmts = fmts or K.FORMATS
+    ctx.notes.append(f"seeded random stage {tag}: {count} values from `nv drive values {ctx.seed}` (DESIGN 13.5), judged by {judge}")
+
+    def one(fmt):
+        def run():
+            cmds = os.path.join(ctx.rundir, f"{tag}_{fmt}.cmds.ndjson")
+            obs = os.path.join(ctx.rundir, f"{tag}_{fmt}.obs.ndjson")
+            with open(cmds, "w", encoding="utf-8") as g:
+                for c in witnesses:
+                    g.write(json.dumps(c, ensure_ascii=False) + "\n")
+                for line in open(allv, encoding="utf-8"):
+                    r = json.loads(line)
+                    if split and r["fmt"] != fmt:
+                        continue
+                    for c in build(r, fmt):
+                        g.write(json.dumps(c, ensure_ascii=False) + "\n")
+            K.account(ctx, cmds, nontrivial or (lambda c: True))
+            K.run_exec(ctx, cmds, obs)
+            K.run_judge(ctx, judge, fmt, obs, f"{tag}_{fmt}_judge", shards=shards, env_extra=env_extra)
+        return run
+    K.parallel([one(f) for f in fmts])
+
+
+SYMMETRIC = ("Similarity", "Equivalence", "EquivalenceConcurrent")
+
+
+def term_of_value(v):
+    return v["v"] if v["kind"] == "term" else v["v"]["t"] if v["kind"] == "sentence" else v["v"]["s"]["t"]
+
+
+def variant(t, rnd, miss):
+    """another recipe for the same term (sets shuffled, elements repeated, symmetric operands swapped) or, with `miss`, a near miss
+    (one leaf renamed, one element dropped, an index moved, asymmetric operands swapped); the judge decides which it is"""
+    t = json.loads(json.dumps(t))
+    hit = [False]
+
+    def walk(x):
+        if "s" in x:
+            x["s"] = [walk(y) for y in x["s"]]
+            rnd.shuffle(x["s"])
+            if rnd.random() < 0.3:
+                x["s"].append(json.loads(json.dumps(rnd.choice(x["s"]))))
+            if miss and not hit[0] and len(x["s"]) > 1 and rnd.random() < 0.3:
+                x["s"].pop()
+                hit[0] = True
+        elif "q" in x:
+            x["q"] = [walk(y) for y in x["q"]]
+            if miss and not hit[0] and len(x["q"]) > 1 and rnd.random() < 0.3:
+                if "i" in x and rnd.random() < 0.5:
+                    x["i"] = (x["i"] + 1) % (len(x["q"]) + 1)
+                else:
+                    x["q"].reverse()
+                hit[0] = True
+        elif "b" in x:
+            x["a"], x["b"] = walk(x["a"]), walk(x["b"])
+            if x["k"] in SYMMETRIC and rnd.random() < 0.5:
+                x["a"], x["b"] = x["b"], x["a"]
+            elif miss and not hit[0] and rnd.random() < 0.3:
+                x["a"], x["b"] = x["b"], x["a"]
+                hit[0] = True
+        elif "a" in x:
+            x["a"] = walk(x["a"])
+        elif miss and not hit[0] and rnd.random() < 0.4:
+            if x["k"] == "Interval":
+                x["n"] = str((int(x["n"]) + 1) % 2 ** 64)
+            elif "n" in x:
+                x["n"] = x["n"] + "0"
+            hit[0] = True
+        return x
+    return walk(t)
+
+
 # ------------------------------------------------------------------------------------------------ C01
 def nontrivial_value(c):
     v = c.get("v", {})
@@ -174,6 +309,8 @@ def plan_c01(K, ctx):
     K.parallel([(lambda f=f: K.pipeline(ctx, f, "c01deep", "MC_Deep", dcfg, "J_C01", nontrivial_value, workers=4,
                                         simulate=(3 if ctx.tier == "quick" else 30, 66), shards=4)) for f in K.FORMATS])
     exotic_stage(K, ctx, "c01exotic", "rt_enum", "J_C01")
+    random_stage(K, ctx, "c01rand", lambda r, f: [dict({"op": "rt_enum", "fmt": f, "v": r["v"], "rand": True}, **({} if spellable(K, ctx, r["v"]) else {"exotic": True}))], "J_C01", nontrivial=nontrivial_value,
+                 shards=2 if ctx.tier == "quick" else 6)
     ctx.exhaustive = False
     return {
         "note": "EnumFormat.tla + EnumParser.tla (M1) on the dumped vocabulary: model round trip checked by TLC for every value of U1 (all 30 "
@@ -187,11 +324,38 @@ def plan_c01(K, ctx):
 
 
 # ------------------------------------------------------------------------------------------------ C10
+def randws_stage(K, ctx, tag, what, count):
+    """seeded random values; the token sequence, the spacings and (what = "sugar") the surface sugar come from the model: MC_RandWS
+    reads the values from a file, checks the model parser on every text it builds and emits the text for both real pipelines"""
+    allv = os.path.join(ctx.rundir, f"{tag}_values.ndjson")
+    p = K.sh([K.NV, "drive", "values", str(ctx.seed), str(count), allv], 900)
+    if p.returncode != 0:
+        raise K.ToolError("nv drive values failed: " + (p.stdout or ""))
+    ctx.notes.append(f"seeded random stage {tag}: {count} values from `nv drive values {ctx.seed}`, texts built by MC_RandWS ({what}), judged by J_Pipe")
+    rcfg = "SPECIFICATION Spec\n" + consts(SEED=ctx.seed, WHAT=f'"{what}"') + "INVARIANT SpacingIrrelevant\nINVARIANT Emit\nCHECK_DEADLOCK FALSE\n"
+
+    def rand(fmt):
+        def run():
+            vals = os.path.join(ctx.rundir, f"{tag}_{fmt}.values.ndjson")
+            with open(vals, "w", encoding="utf-8") as g:
+                for line in open(allv, encoding="utf-8"):
+                    r = json.loads(line)
+                    if r["fmt"] == fmt and spellable(K, ctx, r["v"]):
+                        g.write(line)
+            K.pipeline(ctx, fmt, tag, "MC_RandWS", rcfg, "J_Pipe", lambda c: True, workers=5, shards=4 if ctx.tier == "thorough" else 2,
+                       env_extra={"NV_VALUES": vals})
+        return run
+    K.parallel([rand(f) for f in K.FORMATS])
+
+
+# ------------------------------------------------------------------------------------------------ C10
 def plan_c10(K, ctx):
     cfg = ("SPECIFICATION Spec\n" + consts(TIER=f'"{ctx.tier}"', SEEDS=16, SEED=ctx.seed) +
            "INVARIANT Meaning\nINVARIANT Emit\nCHECK_DEADLOCK FALSE\n")
     K.parallel([(lambda f=f: K.pipeline(ctx, f, "c10", "MC_C10", cfg, "J_Pipe", lambda c: True, workers=5,
                                         shards=4 if ctx.tier == "thorough" else 2)) for f in K.FORMATS])
+    # seeded random values written back with sugar (Resugar) and every derived copula over the operands of random statements
+    randws_stage(K, ctx, "c10rand", "sugar", 500 if ctx.tier == "quick" else 30000)
     return {
         "note": "Sugar.tla states the meaning of the surface sugar independently (Desugar): the four derived copulas over an operand pool (atoms of "
                 "every kind, one representative compound per shape, a sample / all of U1), image component lists of length 1..3 with one or two "
@@ -209,6 +373,7 @@ def plan_c09(K, ctx):
            "INVARIANT SpacingIrrelevant\nINVARIANT Emit\nCHECK_DEADLOCK FALSE\n")
     K.parallel([(lambda f=f: K.pipeline(ctx, f, "c09", "MC_C09", cfg, "J_Pipe", lambda c: sum(1 for t in c["s"] if t == " ") != 0 or True,
                                         workers=5, shards=5 if ctx.tier == "thorough" else 3)) for f in K.FORMATS])
+    randws_stage(K, ctx, "c09rand", "ws", 1500 if ctx.tier == "quick" else 45000)
     return {
         "note": "EnumFormat.tla gives the token sequence of a value; a state of MC_C09 is (value, spacing). Explored per value: 0/1/2 spaces "
                 "everywhere, every single boundary opened alone and closed alone (exhaustive over the boundaries of each explored value), a wide "
@@ -247,6 +412,34 @@ def plan_c08(K, ctx):
             K.run_judge(ctx, "J_Trace", fmt, obs, f"c08trace_{fmt}_judge", shards=4 if ctx.tier == "thorough" else 2)
         return run
     K.parallel([trace(f) for f in K.FORMATS])
+    # seeded random histories: 2..8 inputs drawn from the garbage driver (token soups, deep nesting, real formatter output with random edits),
+    # restricted to the working alphabet and 160 characters so that the model parses every input too; result level and event level
+    tmp = os.path.join(ctx.rundir, "c08rand_pool.ndjson")
+    p = K.sh([K.NV, "drive", "garbage", str(ctx.seed), str(9000 if ctx.tier == "quick" else 90000), tmp], 600)
+    if p.returncode != 0:
+        raise K.ToolError("nv drive garbage failed: " + (p.stdout or ""))
+    alphabet = set(json.load(open(os.path.join(ctx.rundir, "vocab.json"), encoding="utf-8"))["alphabet"])
+    pool = {f: [] for f in K.FORMATS}
+    for line in open(tmp, encoding="utf-8"):
+        c = json.loads(line)
+        if len(c["s"]) <= 160 and all(ch in alphabet for ch in c["s"]):
+            pool[c["fmt"]].append(c["s"])
+    rnd = random.Random(ctx.seed)
+
+    def hist(fmt, op, tag, judge):
+        def run():
+            cmds = os.path.join(ctx.rundir, f"{tag}_{fmt}.cmds.ndjson")
+            obs = os.path.join(ctx.rundir, f"{tag}_{fmt}.obs.ndjson")
+            r2 = random.Random(f"{ctx.seed}-{fmt}")
+            with open(cmds, "w", encoding="utf-8") as g:
+                for _ in range(len(pool[fmt]) // 3):
+                    g.write(json.dumps({"op": op, "fmt": fmt, "inputs": [r2.choice(pool[fmt]) for _ in range(r2.randint(2, 8))], "rand": True}, ensure_ascii=False) + "\n")
+            K.account(ctx, cmds, nontrivial)
+            K.run_exec(ctx, cmds, obs)
+            K.run_judge(ctx, judge, fmt, obs, f"{tag}_{fmt}_judge", shards=4 if ctx.tier == "thorough" else 2)
+        return run
+    K.parallel([hist(f, "multi", "c08rand", "J_C08") for f in K.FORMATS])
+    K.parallel([hist(f, "trace_multi", "c08randtrace", "J_Trace") for f in K.FORMATS])
     # negative control (vacuity guard): with the pinned tree's reset_to the model must violate the invariant
     neg = ("SPECIFICATION Spec\n" + consts(MAXLEN=2, RESET_CLEARS="FALSE") + "INVARIANT HistoryIndependent\nCHECK_DEADLOCK FALSE\n")
     out, st = K.tlc("MC_C08", neg, ctx.rundir, "c08_negative_control", ctx.env("ascii"), 2, K.JAVA_OPTS_MC, 600)
@@ -376,6 +569,18 @@ def eqhash_plan(K, ctx, prop):
     pt_cfg = ("SPECIFICATION Spec\n" + consts(TIER='"quick"', SEEDS=16, SEED=ctx.seed) + "INVARIANT EmitText\nCHECK_DEADLOCK FALSE\n")
     for f in K.FORMATS:
         K.run_mc(ctx, "MC_ParseTwice", pt_cfg, f, f"eq_pt_{f}_mc", cmds, workers=4)
+    # seeded random values (depth <= 6, rich names, huge intervals): a recipe against a rewritten recipe of the same term and against a near miss
+    allv = os.path.join(ctx.rundir, "eq_values.ndjson")
+    p = K.sh([K.NV, "drive", "values", str(ctx.seed), str(1500 if quick else 30000), allv], 900)
+    if p.returncode != 0:
+        raise K.ToolError("nv drive values failed: " + (p.stdout or ""))
+    with open(cmds, "a", encoding="utf-8") as g:
+        for line in open(allv, encoding="utf-8"):
+            t = term_of_value(json.loads(line)["v"])
+            same, near = variant(t, rnd, False), variant(t, rnd, True)
+            g.write(json.dumps({"op": "eqhash", "a": t, "b": same, "reps": reps, "rand": True}, ensure_ascii=False) + "\n")
+            g.write(json.dumps({"op": "eqhash", "a": same, "b": near, "reps": reps, "rand": True}, ensure_ascii=False) + "\n")
+            g.write(json.dumps({"op": "eq3", "a": t, "b": same, "c": rnd.choice([near, variant(t, rnd, False)]), "rand": True}, ensure_ascii=False) + "\n")
     K.account(ctx, cmds, nontrivial)
     K.run_exec(ctx, cmds, obs)
     K.run_judge(ctx, "J_C06", "ascii", obs, "eq_judge", shards=6 if not quick else 3, env_extra={"NV_PROP": prop})
@@ -422,7 +627,19 @@ def plan_c16(K, ctx):
     K.run_mc(ctx, "MC_C16", cfg, "ascii", "c16_ascii_mc", cmds, workers=8)
     lines = sorted(set(x for x in open(cmds, encoding="utf-8").read().split("\n") if x))
     open(cmds, "w", encoding="utf-8").write("".join(l + "\n" for l in lines))
+    # seeded random values (rich names, random floats, huge stamps and intervals) join the same history
+    allv = os.path.join(ctx.rundir, "c16_values.ndjson")
+    p = K.sh([K.NV, "drive", "values", str(ctx.seed), str(2000 if quick else 25000), allv], 900)
+    if p.returncode != 0:
+        raise K.ToolError("nv drive values failed: " + (p.stdout or ""))
+    with open(cmds, "a", encoding="utf-8") as g:
+        for line in open(allv, encoding="utf-8"):
+            r = json.loads(line)
+            g.write(json.dumps(dict({"op": "typst", "v": r["v"], "rand": True}, **({} if spellable(K, ctx, r["v"]) else {"exotic": True})), ensure_ascii=False) + "\n")
     reps(cmds, "ascii")
+    lines = [x for x in open(cmds, encoding="utf-8").read().split("\n") if x]
+    random.Random(ctx.seed).shuffle(lines)           # spread the long random values over the judge shards
+    open(cmds, "w", encoding="utf-8").write("".join(l + "\n" for l in lines))
     K.account(ctx, cmds, nontrivial_value)
     K.run_exec(ctx, cmds, obs)
     K.parallel([lambda: K.run_judge(ctx, "J_C16", "ascii", obs, "c16_global_judge", shards=0, env_extra={"NV_C16_MODE": "global"}),
@@ -449,6 +666,11 @@ def plan_c11(K, ctx):
         return v["kind"] != "term" or v["v"]["k"] not in ("Word", "Atom")
 
     K.pipeline(ctx, "ascii", "c11", "MC_C11", cfg, "J_C11", nontrivial, workers=8, shards=6 if ctx.tier == "thorough" else 3)
+    # seeded random values with ASCII-spelt names: the grammar runs on the real formatter's text (no model prediction involved)
+    random_stage(K, ctx, "c11rand", lambda r, f: [{"op": "ascii_out", "v": r["v"], "rand": True}] if r["ascii_safe"] else [], "J_C11",
+                 count=4000 if ctx.tier == "quick" else 100000, fmts=["ascii"], nontrivial=nontrivial, shards=2 if ctx.tier == "quick" else 6, split=False,
+                 witnesses=[{"op": "ascii_out", "v": {"kind": "sentence", "v": {"t": {"k": "Word", "n": n}, "p": "Judgement", "st": {"k": "Eternal"}, "tr": []}}}
+                            for n in ("a_-_b", "x---y", "a_--b", "a--_b")])   # known finding F10, always exercised
     # the lexicon clause is a statement about the code's tables: a violated Lexicon invariant is a violation of C11
     for a in list(ctx.model_alarms):
         if "Lexicon" in a:
@@ -477,6 +699,15 @@ def plan_c15(K, ctx):
 
     K.parallel([(lambda f=f: K.pipeline(ctx, f, "c15", "MC_C15", cfg, "J_C15", nontrivial, workers=5,
                                         shards=4 if ctx.tier == "thorough" else 2)) for f in K.FORMATS])
+    # seeded random enum values (rich names, huge stamps, long budgets) under random operation histories of length 4..10, replayed through M3
+    rnd = random.Random(ctx.seed)
+    base = ["is", "try_into_term", "try_into_sentence", "try_into_task", "try_into_task_compatible", "cast_to_task", "try_cast_to_sentence",
+            "value_try_cast_to_sentence", "get_term", "std_try_term", "std_try_sentence", "std_try_task"]
+
+    def life(r, f):
+        ops = [rnd.choice(base + ["reparse_" + f, "cast_to_task", "try_cast_to_sentence"]) for _ in range(rnd.randint(4, 10))]
+        return [{"op": "lifecycle", "model": "enum", "fmt": f, "ops": ops, "v": r["v"], "rand": True}]
+    random_stage(K, ctx, "c15rand", life, "J_C15", count=3000 if ctx.tier == "quick" else 90000, nontrivial=nontrivial, shards=2 if ctx.tier == "quick" else 5)
     return {
         "note": f"Lifecycle.tla (M3): all operation sequences of length {depth} over 9-13 operations (is_*, try_into_*, std TryFrom, "
                 "try_into_task_compatible, cast_to_task, try_cast_to_sentence on task and on value, get_term, format-then-parse) from term / sentence "
@@ -534,6 +765,8 @@ def plan_c03(K, ctx):
         return run
     K.parallel([one(f) for f in K.FORMATS])
     exotic_stage(K, ctx, "c03exotic", "pipe_v", "J_Pipe")
+    random_stage(K, ctx, "c03rand", lambda r, f: [dict({"op": "pipe_v", "fmt": f, "v": r["v"], "rand": True}, **({} if spellable(K, ctx, r["v"]) else {"exotic": True}))], "J_Pipe", nontrivial=nontrivial_value,
+                 shards=2 if ctx.tier == "quick" else 6)
     ctx.exhaustive = not quick
     return {
         "note": "MC_Vocab.tla checks on the dumped tables that the enum and the lexical instance of each format describe the same keyword for all "
@@ -558,6 +791,51 @@ def plan_c02(K, ctx):
     K.parallel([(lambda f=f: K.pipeline(ctx, f, "c02", "MC_C02", cfg, "J_C02", nontrivial, workers=6,
                                         shards=5 if ctx.tier == "thorough" else 2)) for f in K.FORMATS])
     exotic_stage(K, ctx, "c02exotic", "rt_lex", "J_C02")
+    # seeded random lexical values: what the real lexical parser reads from the real enum formatter's text of random enum values
+    # (rich names, random floats, huge stamps, depth <= 6) goes through the lexical format / parse round trip
+    count = 3000 if ctx.tier == "quick" else 120000
+    allv = os.path.join(ctx.rundir, "c02rand_values.ndjson")
+    p = K.sh([K.NV, "drive", "values", str(ctx.seed), str(count), allv], 900)
+    if p.returncode != 0:
+        raise K.ToolError("nv drive values failed: " + (p.stdout or ""))
+    alphabet = set(json.load(open(os.path.join(ctx.rundir, "vocab.json"), encoding="utf-8"))["alphabet"])
+
+    def lex_names(x):
+        if isinstance(x, dict):
+            if "name" in x:
+                yield x["name"]
+            for v in x.values():
+                yield from lex_names(v)
+        elif isinstance(x, list):
+            for v in x:
+                yield from lex_names(v)
+
+    def one(fmt):
+        def run():
+            pre_c = os.path.join(ctx.rundir, f"c02rand_{fmt}.pre.cmds.ndjson")
+            pre_o = os.path.join(ctx.rundir, f"c02rand_{fmt}.pre.obs.ndjson")
+            cmds = os.path.join(ctx.rundir, f"c02rand_{fmt}.cmds.ndjson")
+            obs = os.path.join(ctx.rundir, f"c02rand_{fmt}.obs.ndjson")
+            with open(pre_c, "w", encoding="utf-8") as g:
+                for line in open(allv, encoding="utf-8"):
+                    r = json.loads(line)
+                    if r["fmt"] == fmt:
+                        g.write(json.dumps({"op": "pipe_v", "fmt": fmt, "v": r["v"]}, ensure_ascii=False) + "\n")
+            K.run_exec(ctx, pre_c, pre_o)
+            with open(cmds, "w", encoding="utf-8") as g:
+                for line in open(pre_o, encoding="utf-8"):
+                    o = json.loads(line)["o"]
+                    if o.get("l", {}).get("r") == "ok":
+                        lv = o["l"]["v"]
+                        c = {"op": "rt_lex", "fmt": fmt, "v": lv, "rand": True}
+                        if not all(ch in alphabet for n in lex_names(lv) for ch in n):
+                            c["exotic"] = True
+                        g.write(json.dumps(c, ensure_ascii=False) + "\n")
+            K.account(ctx, cmds, nontrivial)
+            K.run_exec(ctx, cmds, obs)
+            K.run_judge(ctx, "J_C02", fmt, obs, f"c02rand_{fmt}_judge", shards=2 if ctx.tier == "quick" else 5)
+        return run
+    K.parallel([one(f) for f in K.FORMATS])
     ctx.exhaustive = ctx.tier == "thorough"
     return {
         "note": "LexParser.tla (M8: window [begin, right) cut by budget / truth / stamp / punctuation, recursive segmenters returning lengths) and "
